@@ -340,3 +340,36 @@ impl Elem for Tr6T {
         self.slot as usize
     }
 }
+
+// ---- 4 bytes / align 4 droppable, to pair with the plain 4/4 type in either direction
+macro_rules! tracked4 {
+    ($name:ident, $drops:ident, $total:ident) => {
+        #[repr(C, align(4))]
+        pub struct $name {
+            pub slot: u8,
+            pub key: u8,
+            pub pad: u16,
+        }
+        ledger_drop!($name, $drops, $total);
+        impl Elem for $name {
+            const HAS_KEY: bool = true;
+            const TRACKED: bool = true;
+            const COUNTED: bool = true;
+            const NAME: &'static str = stringify!($name);
+            fn make(slot: usize, key: u8) -> Self {
+                $name { slot: slot as u8, key, pad: 0x5555 }
+            }
+            fn key(&self) -> u8 {
+                self.key
+            }
+            fn set_key(&mut self, k: u8) {
+                self.key = k;
+            }
+            fn slot(&self) -> usize {
+                self.slot as usize
+            }
+        }
+    };
+}
+tracked4!(Tr4T, T_DROPS, T_TOTAL);
+tracked4!(Tr4U, U_DROPS, U_TOTAL);
